@@ -175,7 +175,21 @@ pub fn gen_expr(rng: &mut Rng, depth: usize, t: &ValueType, chaos: u64) -> Expre
             }
             3 => {
                 let ot = any_type(rng);
-                ExpressionTree::NullableCompare { operator: if rng.chance(1, 2) { NullableCompareOperator::Equal } else { NullableCompareOperator::NotEqual }, left: bx(gen_expr(rng, d, &ot, chaos)), right: bx(if rng.chance(2, 3) { lit(Value::Null) } else { gen_expr(rng, d, &ot, chaos) }) }
+                // `e IS NULL` / `e IS NOT NULL` (the sentence), and `e IS <literal>` / `e IS <expression>` (the parser takes any
+                // right-hand side; the code compares the two VALUES with `==`: no coercion, no type error — `1 IS 1.0` is
+                // false): the literal is of the operand's type, or a number of the other numeric type, or of any type
+                let right = match rng.below(6) {
+                    0 | 1 | 2 => lit(Value::Null),
+                    3 => literal_of(rng, &ot),
+                    4 => match &ot {
+                        ValueType::Int => lit(Value::Float(Float(rng.range(-2, 3) as f64))),
+                        ValueType::Float => lit(Value::Int(rng.range(-2, 3))),
+                        _ => { let t = any_type(rng); literal_of(rng, &t) }
+                    },
+                    _ => gen_expr(rng, d, &ot, chaos),
+                };
+                let left = if rng.chance(1, 4) { match &ot { ValueType::Int => lit(Value::Int(rng.range(-2, 3))), ValueType::Float => lit(Value::Float(Float(rng.range(-2, 3) as f64))), _ => gen_expr(rng, d, &ot, chaos) } } else { gen_expr(rng, d, &ot, chaos) };
+                ExpressionTree::NullableCompare { operator: if rng.chance(1, 2) { NullableCompareOperator::Equal } else { NullableCompareOperator::NotEqual }, left: bx(left), right: bx(right) }
             }
             4 | 5 => ExpressionTree::BooleanOperation { operator: if rng.chance(1, 2) { BooleanOperator::And } else { BooleanOperator::Or }, left: bx(gen_condition(rng, d, chaos)), right: bx(gen_condition(rng, d, chaos)) },
             6 => ExpressionTree::UnaryArithmetic { operator: UnaryArithmeticOperator::Invert, operand: bx(gen_expr(rng, d, &boolean, chaos)) },
@@ -194,6 +208,10 @@ pub fn gen_expr(rng: &mut Rng, depth: usize, t: &ValueType, chaos: u64) -> Expre
                         values.push(match rng.below(5) { 0 | 1 => lit(Value::Int(small(rng))), 2 | 3 => lit(Value::Float(Float(small(rng) as f64))), _ => lit(Value::String("many".to_owned())) });
                     }
                 }
+                // a NULL member anywhere in the list, also BEFORE a member `=` cannot compare with the operand: NOT IN does not
+                // stop at a NULL (only at an equal member), so the later member's error surfaces (Props/C03In.lean
+                // `notin_is_and_chain_full`)
+                if rng.chance(1, 4) { let pos = rng.below(values.len() + 1); values.insert(pos, lit(Value::Null)); }
                 ExpressionTree::In { is_not: rng.chance(1, 2), operand: bx(gen_expr(rng, d, &ot, chaos)), values }
             }
             9 => {
@@ -299,7 +317,8 @@ fn root_name(e: &ExpressionTree) -> String {
         ExpressionTree::ScopedColumnAccess(_, _) => "scoped".into(),
         ExpressionTree::Wildcard => "wildcard".into(),
         ExpressionTree::Compare { operator, .. } => format!("cmp-{}", cmp_name(operator)),
-        ExpressionTree::NullableCompare { .. } => "is".into(),
+        // `IS NULL` / `IS NOT NULL` is what the sentence speaks about; any other right-hand side is counted apart
+        ExpressionTree::NullableCompare { right, .. } => if matches!(**right, ExpressionTree::Value(Value::Null)) { "is".into() } else { "is-value".into() },
         ExpressionTree::Arithmetic { operator, .. } => format!("arith-{}", arith_name(operator)),
         ExpressionTree::BooleanOperation { .. } => "boolop".into(),
         ExpressionTree::UnaryArithmetic { operator, .. } => format!("unary-{}", operator),
@@ -550,7 +569,7 @@ pub fn check_expr(run: &mut Run, env: &[(String, Value)], e: &ExpressionTree, ex
 /// one select-list item with the name the property gives its column ("the alias, else the column name, else p<i>")
 fn select_item(rng: &mut Rng, i: usize, has_bool: bool) -> (String, String) {
     const COLS: &[&str] = &["k", "v", "w", "r", "s"];
-    const EXPRS: &[&str] = &["v + 1", "v * w", "upper(k)", "length(s)", "v > w", "k IS NULL", "r / 2.0", "(CASE WHEN v > 0 THEN k ELSE s END)", "v::text", "greatest(v, w)", "'lit'", "42", "NULL", "t.v", "t.k"];
+    const EXPRS: &[&str] = &["v + 1", "v * w", "upper(k)", "length(s)", "v > w", "k IS NULL", "v IS 1", "r IS NOT 1", "v IS NOT w", "k IS 'a'", "r / 2.0", "(CASE WHEN v > 0 THEN k ELSE s END)", "v::text", "greatest(v, w)", "'lit'", "42", "NULL", "t.v", "t.k"];
     let alias = if rng.chance(1, 3) { Some((*rng.pick(&["a0", "x", "k", "v", "p0", "p1", "total", "input"])).to_owned()) } else { None };
     match rng.below(10) {
         0..=3 => {
@@ -625,7 +644,7 @@ fn select_level(run: &mut Run, rng: &mut Rng, n: usize) {
                 names.push(nm);
             }
         }
-        let filter = if rng.chance(1, 2) { format!(" WHERE {}", rng.pick(&["v > 0", "k = 'a'", "w IS NOT NULL", "v + w < 10", "s != 'x' OR v = 1", "NOT (k IS NULL)", "v / w > 0", "r > 0.5", "k IN ('a', 'b')", "v NOT IN (1, 2)",
+        let filter = if rng.chance(1, 2) { format!(" WHERE {}", rng.pick(&["v > 0", "k = 'a'", "w IS NOT NULL", "v + w < 10", "s != 'x' OR v = 1", "NOT (k IS NULL)", "v / w > 0", "r > 0.5", "k IN ('a', 'b')", "v NOT IN (1, 2)", "v IS 1", "v IS NOT 2", "k IS 'a'", "r IS 1", "v IS 1.0", "v NOT IN (NULL, 1)", "v NOT IN (1, w)", "w IS NOT v",
             // conditions that are not BOOLEAN on some rows (D69): an INT / TEXT / REAL expression, an AND / OR with such an operand, a WHEN of
             // another type; and conditions that are NULL (do not hold, no error)
             "v + 1", "k", "v", "upper(s)", "r", "v AND w > 0", "w > 0 OR k", "w > 0 AND v", "(CASE WHEN v THEN 1 ELSE 0 END) = 1", "NULL", "NOT NULL", "(CASE WHEN v > 0 THEN k END) = 'a'", "NOT (v > w)"])) } else { String::new() };
